@@ -26,13 +26,13 @@ def braceless(prog, mask=None):
         n = len(s[1])
         for i, (c, body) in enumerate(s[1]):
             kw = "if" if i == 0 else "else if"
-            if len(body) == 1 and body[0][0] in ("say", "set", "add", "sub") and (mask is None or i in mask):
+            if len(body) == 1 and body[0][0] in ("say", "set", "add", "sub", "ret") and (mask is None or i in mask):
                 out.append(f"{pad}{kw} ({G.cond_src(c)}) {G.stmt_src(body[0], 0)}")
             else:
                 out.append(f"{pad}{kw} ({G.cond_src(c)}) {{\n" + "\n".join(stmt(x, ind + 1) for x in body) + f"\n{pad}}}")
         if s[2] is not None:
             e = s[2]
-            if len(e) == 1 and e[0][0] in ("say", "set", "add", "sub") and (mask is None or n in mask):
+            if len(e) == 1 and e[0][0] in ("say", "set", "add", "sub", "ret") and (mask is None or n in mask):
                 out.append(f"{pad}else {G.stmt_src(e[0], 0)}")
             else:
                 out.append(f"{pad}else {{\n" + "\n".join(stmt(x, ind + 1) for x in e) + f"\n{pad}}}")
@@ -283,6 +283,163 @@ def rich_items(rng, quick):
     return items
 
 
+# ---- misc triage (item 1): `return` inside a branch ---------------------------------------------------------
+
+RET_PACK_FORMATS = ["15", "18", "26", "41", "57", "61"]
+RET_SHAPES = ["only", "say_ret", "say_ret_say", "cond_ret", "cond_ret_fn", "chain_then_ret", "nested_ret_chain",
+              "say_return_word", "call_returning", "ret_run_call", "ret_run_say"]
+
+
+def ret_body(shape, nm, form, tag):
+    """-> (body, helper functions {name: body}) of a branch that (possibly) returns"""
+    say = lambda: nm.say(tag)
+    n1 = G.atomic_cond("$n")
+    if shape == "only":
+        return [("ret", form)], {}
+    if shape == "say_ret":
+        return [say(), ("ret", form)], {}
+    if shape == "say_ret_say":                      # dead code after the return
+        return [say(), ("ret", form), say()], {}
+    if shape == "cond_ret":                         # `execute if … run return …` in the body's own lines
+        return [("if", [(n1, [("ret", form)])], None), say()], {}
+    if shape == "cond_ret_fn":                      # the inner body is a function of its own: its return leaves only that one
+        return [("if", [(n1, [say(), ("ret", form)])], None), say()], {}
+    if shape == "chain_then_ret":                   # a nested chain (re)sets the flag, THEN the body returns
+        return [("if", [(n1, [say()])], [say()]), ("ret", form)], {}
+    if shape == "nested_ret_chain":                 # the nested chain's own wrapped branch returns
+        return [("if", [(n1, [say(), ("ret", form)])], [say()]), say()], {}
+    if shape == "say_return_word":                  # the rule is textual: the word `return` in a line
+        return [("say", "return"), say()], {}
+    if shape == "call_returning":                   # the callee returns: that leaves the callee only
+        return [("call", "g"), say()], {"g": [nm.say("g"), ("ret", form), nm.say("g")]}
+    if shape == "ret_run_call":                     # `return run g()`, g runs a chain of its own (which clears the flag)
+        g = [("if", [(n1, [nm.say("g"), nm.say("g")])], [nm.say("g")]), nm.say("gend")]
+        return [say(), ("ret", ("call", "g"))], {"g": g}
+    if shape == "ret_run_say":
+        return [say(), ("ret", ("say", "rr"))], {}
+    raise ValueError(shape)
+
+
+def return_items(rng, quick):
+    """`return` in a branch body: every shape x chain length x else kind x position of the returning body (the last
+    part included: there the return may leave the ENCLOSING function — one-line bodies are inlined), all return forms
+    rotating; brace-less spellings; several returning branches; random nests with returns sprinkled in."""
+    items = []
+    k = 0
+    V = ["$a", "$b", "$c"]
+    for shape in RET_SHAPES:
+        for n in (1, 2, 3):
+            for ek in (None, "one", "two"):
+                if n == 3 and ek == "two":
+                    continue
+                for pos_ in range(n + (ek is not None)):
+                    k += 1
+                    if quick and n == 3 and (k % 2):
+                        continue
+                    nm = G.Names()
+                    form = G.RET_FORMS[k % len(G.RET_FORMS)]
+                    conds = [G.or_cond(V[j], "$d") if (k + j) % 5 == 0 else G.atomic_cond(V[j]) for j in range(n)]
+                    bodies = [[nm.say(f"B{j}_")] * (1 + (j + k) % 2) for j in range(n)]
+                    els = None if ek is None else [nm.say("E")] * (1 if ek == "one" else 2)
+                    rb, more = ret_body(shape, nm, form, f"R{pos_}_")
+                    if pos_ < n:
+                        bodies[pos_] = rb
+                    else:
+                        els = rb
+                    p = [("if", [(conds[j], bodies[j]) for j in range(n)], els), nm.say("after")]
+                    it = dict(prog=p, cert=k % 2, stream="return-in-branch", cap=64,
+                              ret=dict(shape=shape, n=n, els=ek, pos=pos_, form=str(form)))
+                    if k % 3 == 0:          # the lowering must not depend on the pack format (`return` exists from 15 / 18 / 26 on)
+                        it["pack_format"] = RET_PACK_FORMATS[(k // 3) % len(RET_PACK_FORMATS)]
+                    if more:
+                        it.update(more=more, order=["f", "g"] if k % 2 else ["g", "f"])
+                    items.append(it)
+                    if shape == "only" and not more:
+                        items.append(dict(it, stream="return-in-branch-braceless", src=braceless(p)))
+    # every branch returns; a returning chain nested in a returning branch; two chains in a row
+    for k2, form in enumerate(G.RET_FORMS):
+        nm = G.Names()
+        brs = [(G.atomic_cond(V[j]), [nm.say(f"A{j}_"), ("ret", form)]) for j in range(3)]
+        items.append(dict(prog=[("if", brs, [nm.say("E"), ("ret", form)]), nm.say("after")], cert=k2 % 2,
+                          stream="return-in-branch", ret=dict(shape="all", form=str(form))))
+        nm = G.Names()
+        inner = ("if", [(G.atomic_cond("$n"), [nm.say("I"), ("ret", form)]), (G.atomic_cond("$m"), [nm.say("J")])], [nm.say("K")])
+        p = [("if", [(G.atomic_cond("$a"), [inner, nm.say("mid"), ("ret", form), nm.say("dead")]),
+                     (G.atomic_cond("$b"), [nm.say("B")])], [nm.say("E")]),
+             ("if", [(G.atomic_cond("$c"), [nm.say("C"), ("ret", form)])], [nm.say("F")]), nm.say("after")]
+        items.append(dict(prog=p, cert=k2 % 2, stream="return-in-branch", cap=64, ret=dict(shape="nested", form=str(form))))
+    # random nests (no loops around the returns: a `return` in a loop body is `break`, property C05's ground)
+    for i in range(60 if quick else 600):
+        p = G.random_program(rng, depth=rng.choice([2, 3]), loops=False)
+        G.sprinkle_returns(rng, p, 0.35)
+        items.append(dict(prog=p, cert=i % 2, stream="return-random", ret=dict(shape="random")))
+    return items
+
+
+# ---- misc triage (item 3): a pending chain directly followed by a nested declaration --------------------------
+
+def declaration_items(rng, quick):
+    """`if (...) {...} [else if ...]` (no else: the chain is still pending) directly followed by a function declared INSIDE
+    the function body.  The declaration is no statement of the enclosing function: the chain belongs to — and must run in —
+    the enclosing function, the declared function's file holds its own body only.  (The nested function has no blocks of its
+    own, so the private-function numbering is that of the enclosing function alone; it is compiled as the top-level `g`.)"""
+    items = []
+    a, b, o = G.atomic_cond("$a"), G.atomic_cond("$b"), G.or_cond("$c", "$d")
+    k = 0
+    for decl in ("function", "lazy"):
+        for nest in ("top", "branch", "else"):
+            for pre in (False, True):
+                for post in (False, True):
+                    shapes = lambda nm: [
+                        ("lone-inline", ("if", [(a, [nm.say("T")])], None)),
+                        ("lone-function", ("if", [(a, [nm.say("T"), nm.say("T")])], None)),
+                        ("lone-or", ("if", [(o, [nm.say("T")])], None)),
+                        ("elif", ("if", [(a, [nm.say("T")]), (b, [nm.say("U"), nm.say("U")])], None)),
+                        ("elif-or-last", ("if", [(a, [nm.say("T"), nm.say("T")]), (o, [nm.say("U")])], None)),
+                        ("elif3", ("if", [(o, [nm.say("T")]), (a, [nm.say("U")]), (b, [nm.say("V")])], None)),
+                        ("with-else", ("if", [(a, [nm.say("T")])], [nm.say("E")])),          # control: closed by its else
+                    ]
+                    for si in range(7):
+                        k += 1
+                        if quick and nest != "top" and (k % 2):
+                            continue
+                        nm = G.Names()
+                        tag, chain = shapes(nm)[si]
+                        gbody = [nm.say("G"), nm.say("G")]
+                        stmts = ([nm.say("pre")] if pre else []) + [chain, "DECL"] + ([nm.say("post")] if post else [])
+
+                        def render(body, ind):
+                            out = []
+                            for x in body:
+                                if x == "DECL":
+                                    kw = "function g()" if decl == "function" else "@lazy function g()"
+                                    out.append("    " * ind + kw + " {\n" + G.body_src(gbody, ind + 1) + "\n" + "    " * ind + "}")
+                                else:
+                                    out.append(G.stmt_src(x, ind))
+                            return "\n".join(out)
+                        plain = [x for x in stmts if x != "DECL"]
+                        if nest == "top":
+                            prog = plain + [nm.say("end")]
+                            src = "function f() {\n" + render(stmts, 1) + "\n" + G.stmt_src(prog[-1], 1) + "\n}\n"
+                        else:
+                            e = G.atomic_cond("$e")
+                            other = [nm.say("X"), nm.say("X")]
+                            outer = ("if", [(e, plain)], other) if nest == "branch" else ("if", [(e, other)], plain)
+                            prog = [outer, nm.say("end")]
+                            inner_src = "{\n" + render(stmts, 2) + "\n    }"
+                            other_src = G.block(other, 2)
+                            first, second = (inner_src, other_src) if nest == "branch" else (other_src, inner_src)
+                            src = (f"function f() {{\n    if ({G.cond_src(e)}) {first}\n    else {second}\n"
+                                   + G.stmt_src(prog[-1], 1) + "\n}\n")
+                        it = dict(prog=prog, cert=k % 2, stream="chain-before-declaration", src=src, cap=64,
+                                  decl=dict(kind=decl, nest=nest, chain=tag, pre=pre, post=post,
+                                            gtext="\n".join("say " + x[1] for x in gbody)))
+                        if decl == "function":
+                            it.update(more={"g": gbody}, order=["f", "g"])
+                        items.append(it)
+    return items
+
+
 def gen_items(rng, tier):
     items = []
     quick = tier == "quick"
@@ -357,6 +514,9 @@ def gen_items(rng, tier):
     for i in range(120 if quick else 1500):
         p = G.random_program(rng, depth=rng.choice([2, 3, 3]), loops=rng.random() < 0.7, braceless_loops=True)
         items.append(dict(prog=G.mark_braceless(rng, p, 0.75), cert=i % 2, stream="random-nested-braceless"))
+    # (vi) misc triage: `return` inside branch bodies
+    items += return_items(rng, quick)
+    items += declaration_items(rng, quick)
     return items
 
 
@@ -374,7 +534,15 @@ def main(tier: str) -> int:
         "OUTER pending chain, unlike JavaScript's nearest-if rule); several user functions: compiled in source order with one numbering state",
         "outside the model: `if (...) expand {...}` and `$if` (property C03's check covers both: Model/CondExpand.v), switch (C06), body commands that are `execute` with sub-clauses "
         "other than if/unless score and store (not in MC/Syntax.v)",
-        "mcvm.py + the source-level interpreter in c04_gen.py: untrusted, used only to search for failing inputs",
+        "`return`: MC/Syntax.v has no such command (a `return …` line is COther in the model: the text tie covers it, the MC.Sem theorems "
+        "treat it as a no-op); its meaning — leave the function it is written in — is added by Proofs/IfElseReturn.v (rruns) for the theorems "
+        "C04_return_*; Model.Loop.isolate ports add_custom_private_function(postcommands_after_return=True) of fixes/C04-return-in-branch.patch "
+        "(textual test: a line containing the word `return` / `$return`); Run.C04.Pinned = copy of the lowering without isolation, used only to "
+        "classify a differing case as the proposed known finding C04-return-in-branch (reports/misc-known-findings-4.json) while the patch is uncommitted",
+        "nested function declarations (stream chain-before-declaration): written by the harness as source text, modelled as the enclosing body "
+        "without the declaration + the declared function as a further user function (its body has no blocks of its own)",
+        "mcvm.py (+ c04_gen.RVM: `return`) and the source-level interpreter in c04_gen.py (a `return` unwinds to the innermost block compiled to "
+        "a function of its own): untrusted, used only to search for failing inputs",
     ]
     ck.proof(extra_targets=["Run/C04.vo"])
     items = gen_items(ck.rng, tier)
@@ -396,12 +564,20 @@ def main(tier: str) -> int:
              "for / while with plain and || conditions, for holding a chain) x chain position (lone, first with else, else, last else-if, else-if before else, middle, "
              "last of 3, else of 3, every body brace-less) x follower in the same block (none, say, chain, brace-less chain, while, for, do-while, for with ||, "
              "brace-less else-if loop + loop) x enclosing block (function, for / while / do-while body, branch, else branch); random nests with brace-less bodies "
-             "wherever the grammar allows.  distinct_nontrivial = distinct sources containing a chain with >= 2 parts (flag protocol exercised)",
+             "wherever the grammar allows.  Misc triage: `return` in a branch body (11 body shapes: only / after a say / before dead code / under an inlined "
+             "`if` / in an inner block function / after a nested chain / in a nested chain's wrapped branch / the word `return` in a say / a returning callee / "
+             "`return run g()` with g running a chain / `return run say`) x chain length 1-3 x else kind x position of the returning body (last part included) x "
+             "6 return forms, brace-less `if (c) return 1; else …`, every branch returning, nested, random nests with returns sprinkled in; a pending chain "
+             "(7 shapes, with else as control) directly before `function g() {…}` / `@lazy function g() {…}` declared in the function body, at top level and inside "
+             "a branch / else body.  distinct_nontrivial = distinct sources containing a chain with >= 2 parts (flag protocol exercised)",
         correspondence="text of the user function and of every private function == Model (compile_body), compared in Coq",
         disagreements_checked=len(st["bad"]), semantic_runs=st["n_runs"], semantic_runs_skipped_divergent=st["n_skipped"],
         semantic_failures=len(st["sem_fail"]), compile_errors_expected_by_model=st["n_errors"],
         branch_histogram=st["tags"], streams=st["streams"],
         braceless_bodies=sum(G.count_braceless(it["prog"]) for it in items),
+        return_programs=sum(1 for it in items if it.get("ret")), declaration_programs=sum(1 for it in items if it.get("decl")),
+        known_return_in_branch=st["known_return_in_branch"],
+        known_pending_chain_before_declaration=st["known_pending_chain_before_declaration"],
         search="every case: emitted functions run in mcvm from every 0/1 assignment of the variables read (<=48 states, sampled beyond; "
                "thorough: also unset), say-trace and final user scores compared with the JavaScript meaning",
         not_modelled="Minecraft's maxCommandChainLength / recursion limits",
